@@ -21,6 +21,15 @@ import os
 from mc import explorer
 
 NEEDS_BRIDGEPOINT = False
+# definition family (see DefModel)
+DEF_KIND = 'Ab'
+DEF_ATTRS = [('Id', 'UNIQUE_ID'), ('Nm', 'STRING')]
+DEF_PROBE_ROUTES = ['find_metaclass', 'find_class', 'select_many', 'select_one', 'new', 'clone']
+DEF_DEFINE_ROUTES = ['define_class', 'loader']
+DEF_CREATE_ROUTES = ['new', 'clone']
+DEF_MAX_PROBES = 2        # rejected uses of the name before the definition, per history
+DEF_SLICE = 32
+DEF_MAX_DEPTH = 8         # closes at depth DEF_MAX_PROBES + 2
 ASSUMPTIONS = [
     'names of two or three letters, all 2^n case patterns; one observed instance plus one referred instance',
     'values from a three-value alphabet per attribute type',
@@ -1159,14 +1168,7 @@ class PaletteModel(explorer.Model):
 # definition family: a metamodel in which the class is NOT defined yet; lookups / selections / creations under some
 # spellings are rejected first, then the class is defined under one spelling, then every spelling must address it
 # ---------------------------------------------------------------------------------------------------------------------
-DEF_KIND = 'Ab'
-DEF_ATTRS = [('Id', 'UNIQUE_ID'), ('Nm', 'STRING')]
-DEF_PROBE_ROUTES = ['find_metaclass', 'find_class', 'select_many', 'select_one', 'new', 'clone']
-DEF_DEFINE_ROUTES = ['define_class', 'loader']
-DEF_CREATE_ROUTES = ['new', 'clone']
-DEF_MAX_PROBES = 2        # rejected uses of the name before the definition, per history
-DEF_SLICE = 32
-DEF_MAX_DEPTH = 8         # closes at depth DEF_MAX_PROBES + 2
+# (DEF_* constants: top of the module)
 
 
 class DefModel(explorer.Model):
